@@ -63,8 +63,19 @@ def evaluate(ctx, rep, pdb2sql, groups, record=True):
     """groups: list of (lines, cutoff, [(allch, c1, c2, in_domain)], base_feats).  Returns list of
     (case, verdict_ok, tie_ok, text)."""
     reqs, plan = [], []
-    for lines, cutoff, cfgs, base in groups:
+    for grp in groups:
+        lines, cutoff, cfgs, base = grp[:4]
+        move = grp[4] if len(grp) > 4 else None
         st = Struct(pdb2sql, lines)
+        if move and move[0] in st.chains and len(st.chains) >= 2:
+            # repeated use of ONE object: a first call, then the structure is modified through the public API
+            # (one chain translated along x), then the calls under test: the answers must describe the NEW structure
+            other = [c for c in st.chains if c != move[0]][0]
+            run_impl(lambda: st.db.get_contact_atoms(cutoff=cutoff, chain1=move[0], chain2=other))
+            run_impl(lambda: st.db.get_contact_atoms(cutoff=cutoff, allchains=True, return_contact_pairs=True))
+            xs = [float(t[5]) + (move[1] / 1000.0 if t[1] == move[0] else 0.0) for t in st.table]
+            st.db.update_column('x', xs)
+            st.table = table_of(st.db); st.wire = wire_table(st.table); st.chains = chains_of(st.table)
         if has_empty_name(st.table):
             rep.skipped['out_of_model_empty_name'] += 1
             continue
@@ -96,7 +107,10 @@ def evaluate(ctx, rep, pdb2sql, groups, record=True):
                         if allch and not pairs and impl[0] == 'OK' and any(not v for _, v in impl[1]) and any(v for _, v in impl[1]):
                             feats.append('no-contact-chain')
                         if not dom: feats.append('outside-domain(tie-only)')
-                        plan.append((make_case(lines, cutoff, allch, c1, c2, obb, exh, pairs), impl, k, ks, feats, st))
+                        cs_ = make_case(lines, cutoff, allch, c1, c2, obb, exh, pairs)
+                        if move:
+                            cs_['prime_then_move'] = list(move); feats.append('object-reused-after-modification')
+                        plan.append((cs_, impl, k, ks, feats, st))
     outs = ctx.model.batch(reqs)
     rep.model_reqs += reqs
     rep.model_outs += outs
@@ -196,6 +210,9 @@ def explore(ctx, tier, rng, search=False):
         base = []
         if any(len(c) > 1 for c in chains): base.append('segid-chain')
         groups.append((to_lines(atoms), cutoff, configs_for(chains, rng, full=(len(chains) <= 3 or big)), base))
+        if k % 6 == 0 and len(chains) >= 2 and all(len(c) == 1 for c in chains):
+            mv = (rng.choice(chains), rng.choice([125, -250, 3000, 1000, -6125]))
+            groups.append((to_lines(atoms), cutoff, configs_for(chains, rng, full=False)[:3], base, mv))
     # evaluate in slices (bounded memory, progress)
     for i in range(0, len(groups), 12):
         evaluate(ctx, rep, pdb2sql, groups[i:i + 12])
@@ -219,7 +236,10 @@ def replay(ctx, case):
     st = Struct(pdb2sql, case['lines'])
     dom = (len(st.chains) >= 2) if case['allchains'] else (case['chain1'] != case['chain2'] and case['chain1'] in st.chains and case['chain2'] in st.chains)
     cfg = cfg[:3] + (dom,)
-    res = evaluate(ctx, rep, pdb2sql, [(case['lines'], case['cutoff'], [cfg], [])], record=False)
+    grp = (case['lines'], case['cutoff'], [cfg], [])
+    if case.get('prime_then_move'):
+        grp = grp + (tuple(case['prime_then_move']),)
+    res = evaluate(ctx, rep, pdb2sql, [grp], record=False)
     for c, vok, tok, text in res:
         if (c['only_bb'], c['exclH'], c['pairs']) == (case['only_bb'], case['exclH'], case['pairs']):
             return (vok and tok), text
